@@ -1,6 +1,6 @@
 """Denotational semantics of documents (DESIGN 5.1) and the contract of best_layout (C04).
 
-den(i, m, d, st) renders ONE document compositionally from state st = St(out, col, k): `out` the SDocs
+den(i, m, d, st) renders ONE document compositionally from state st = St(out, col, k, brk, fl): `out` the SDocs
 emitted so far, `col` the output column, `k` the index of the next unused decision of the oracle.
 It is written from the statement of C04: text fragments in document order, a line break indents by
 the sum of the enclosing nest offsets, flat_choice by mode, always_break forces broken, annotations
@@ -87,9 +87,9 @@ def den(i, m, d, st):
     if isinstance(d, str):
         if len(d) == 0:
             return st           # an empty fragment is not observable (normalisation drops it)
-        return St(st.out + [d], st.col + len(d), st.k)
+        return St(st.out + [d], st.col + len(d), st.k, st.brk, st.fl)
     if d is HARDLINE:
-        return St(st.out + [SLine(i)], i, st.k)
+        return St(st.out + [SLine(i)], i, st.k, True, st.fl if st.brk else st.col)
     if isinstance(d, Concat):
         return denlist(i, m, d.docs, st)
     if isinstance(d, Nest):
@@ -97,7 +97,7 @@ def den(i, m, d, st):
     if isinstance(d, AlwaysBreak):
         return den(i, BREAK_MODE, d.doc, st)
     if isinstance(d, Annotated):
-        return den_close(d.annotation, den(i, m, d.doc, St(st.out + [SAnnotationPush(d.annotation)], st.col, st.k)))
+        return den_close(d.annotation, den(i, m, d.doc, St(st.out + [SAnnotationPush(d.annotation)], st.col, st.k, st.brk, st.fl)))
     if isinstance(d, FlatChoice):
         if m is FLAT_MODE:
             return den(i, m, d._when_flat, st)
@@ -107,20 +107,20 @@ def den(i, m, d, st):
             # forced content (an always_break is reachable in the flat rendering), or nothing to render: no decision
             return den(i, BREAK_MODE, d.doc, st)
         if oracle(st.k):
-            return den(i, FLAT_MODE, d.doc, St(st.out, st.col, st.k + 1))
-        return den(i, BREAK_MODE, d.doc, St(st.out, st.col, st.k + 1))
+            return den(i, FLAT_MODE, d.doc, St(st.out, st.col, st.k + 1, st.brk, st.fl))
+        return den(i, BREAK_MODE, d.doc, St(st.out, st.col, st.k + 1, st.brk, st.fl))
     if isinstance(d, Fill):
         return denfill(i, m, d.docs, st)
     if isinstance(d, Contextual):
         return den(i, m, apply_ctx(d.fn, i, st.col, PW, RW), st)
     if isinstance(d, SAnnotationPop):
-        return St(st.out + [d], st.col, st.k)
+        return St(st.out + [d], st.col, st.k, st.brk, st.fl)
     return st
 
 
 @C.spec([('a', 'Ann'), ('st', 'St')], 'St')
 def den_close(a, st):
-    return St(st.out + [SAnnotationPop(a)], st.col, st.k)
+    return St(st.out + [SAnnotationPop(a)], st.col, st.k, st.brk, st.fl)
 
 
 @C.spec([('out', 'Out')], 'Out')
@@ -155,12 +155,12 @@ def denfill(i, m, ds, st):
     if not ds:
         return st
     if not ds[1:]:
-        return den(i, md(oracle(st.k)), ds[0], St(st.out, st.col, st.k + 1))
+        return den(i, md(oracle(st.k)), ds[0], St(st.out, st.col, st.k + 1, st.brk, st.fl))
     if not ds[2:]:
-        return den(i, md(oracle(st.k)), ds[1], den(i, md(oracle(st.k)), ds[0], St(st.out, st.col, st.k + 1)))
+        return den(i, md(oracle(st.k)), ds[1], den(i, md(oracle(st.k)), ds[0], St(st.out, st.col, st.k + 1, st.brk, st.fl)))
     return denfill(i, m, ds[2:],
                    den(i, md(oracle(st.k + 1)), ds[1],
-                       den(i, md(oracle(st.k)), ds[0], St(st.out, st.col, st.k + 2))))
+                       den(i, md(oracle(st.k)), ds[0], St(st.out, st.col, st.k + 2, st.brk, st.fl))))
 
 
 @C.spec([('stack', 'Stack'), ('st', 'St')], 'St')
@@ -398,7 +398,7 @@ def lemma_denfill_mode(i, m, ds, st):
         return
     if not ds[2:]:
         return
-    lemma_denfill_mode(i, m, ds[2:], den(i, md(oracle(st.k + 1)), ds[1], den(i, md(oracle(st.k)), ds[0], St(st.out, st.col, st.k + 2))))
+    lemma_denfill_mode(i, m, ds[2:], den(i, md(oracle(st.k + 1)), ds[1], den(i, md(oracle(st.k)), ds[0], St(st.out, st.col, st.k + 2, st.brk, st.fl))))
 
 
 @C.lemma([('i', 'Int'), ('d', 'Obj'), ('st', 'St')],
@@ -607,7 +607,7 @@ C.proto('fitting_predicate',
         modifies=['triplestack'],
         note='the common contract of fast_fitting_predicate (SMART False) and smart_fitting_predicate (SMART True)')
 
-_FINAL = 'den(old(outcol), old(mode), old(doc), St([], old(outcol), 0))'
+_FINAL = 'den(old(outcol), old(mode), old(doc), St([], old(outcol), 0, False, 0))'
 
 C.contract(
     LAYOUT, 'best_layout',
@@ -616,7 +616,7 @@ C.contract(
     yields='Out', locals_={'triplestack': 'Stack'},
     requires=['width == PW', 'RW == max(0, min(PW, round(ribbon_frac * PW)))', 'wf(doc)', 'hlsafe(doc)', 'flatok(mode, doc)',
               'fillclean(doc)'],
-    ghost={'ok': ('Bool', 'True'), 'k': ('Int', '0')},
+    ghost={'ok': ('Bool', 'True'), 'k': ('Int', '0'), 'gb': ('Bool', 'False'), 'gf': ('Int', '0')},
     ensures=[('den', 'implies(ok, erase_empty(result) == %s.out)' % _FINAL)],
     loops={0: dict(
         inv=[('wf', 'wf_stack(triplestack)'),
@@ -624,9 +624,14 @@ C.contract(
              ('flatok', 'flatok_stack(triplestack)'),
              ('fillclean', 'fillclean_stack(triplestack)'),
              ('rw', 'ribbon_width == RW'),
-             ('den', 'implies(ok, dens(triplestack, St(erase_empty(__out__), outcol, k)) == %s)' % _FINAL)],
+             ('den', 'implies(ok, dens(triplestack, St(erase_empty(__out__), outcol, k, gb, gf)) == %s)' % _FINAL)],
         decreases=['stack_size(triplestack)'],
         ghost_back=['''
+if doc is HARDLINE:
+    # St also records where the FIRST line of a rendering ended (fl) and whether it ended (brk): for the whole run here
+    if not gb:
+        gf = athead(outcol)
+    gb = True
 if isinstance(doc, Group):
     # C05 / C06: the mode the group continues in is FLAT exactly when the content of the group and what follows it on
     # the line fit into the available width (fits() is the compositional width semantics the predicates are proved
